@@ -87,7 +87,13 @@ func NewConc(w *World, seed int64) *Conc {
 		c.Q = qs[2+r.Intn(len(qs)-2)]
 	}
 	if c.Q > 0 {
-		c.Prefix = (r.Uint32() >> (32 - c.Q)) << (32 - c.Q)
+		// the embedded block must have addresses below and above it (two OUT classes)
+		for {
+			c.Prefix = (r.Uint32() >> (32 - c.Q)) << (32 - c.Q)
+			if c.Prefix != 0 && c.Prefix>>(32-c.Q) != (uint32(1)<<c.Q)-1 {
+				break
+			}
+		}
 	}
 	return c
 }
@@ -135,21 +141,29 @@ func (c *Conc) RepAddr(w *World, a int, which int) (uint32, bool) {
 			return lo + (hi-lo)/2, true
 		}
 	}
-	// OUT: below or above the embedded block
+	// OUT classes: nAddr = below the embedded block, nAddr+1 = above it
 	if c.Q == 0 {
 		return 0, false
 	}
 	lo, hi := c.AddrLo(0), c.AddrHi(w.NAddr-1)
-	if lo > 0 && which%2 == 0 {
-		return lo - 1, true
+	if a == w.NAddr {
+		switch which % 3 {
+		case 0:
+			return lo - 1, true
+		case 1:
+			return 0, true
+		default:
+			return (lo - 1) / 2, true
+		}
 	}
-	if hi < 0xffffffff {
+	switch which % 3 {
+	case 0:
 		return hi + 1, true
+	case 1:
+		return 0xffffffff, true
+	default:
+		return hi + 1 + (0xffffffff-hi-1)/2, true
 	}
-	if lo > 0 {
-		return 0, true
-	}
-	return 0, false
 }
 
 // AbstractRange maps a concrete address range to the set of model classes it covers.
@@ -171,7 +185,7 @@ func (c *Conc) AbstractRange(w *World, lo, hi uint32) (classes []int, ok bool) {
 		pieces = append(pieces, piece{c.AddrLo(a), c.AddrHi(a), a})
 	}
 	if c.Q > 0 && blockHi < 0xffffffff {
-		pieces = append(pieces, piece{blockHi + 1, 0xffffffff, w.NAddr})
+		pieces = append(pieces, piece{blockHi + 1, 0xffffffff, w.NAddr + 1})
 	}
 	seen := map[int]bool{}
 	startOK, endOK := false, false
